@@ -91,6 +91,82 @@ fn fen_mutants(base: &str, out: &mut Vec<String>) {
         f[0] = &joined;
         out.push(f.join(" "));
     }
+    // sum-preserving double faults: one rank loses a square, another gains one (the total stays 64),
+    // in every way a single character edit can do that; and a '/' swapped with its neighbour
+    let shrink = |r: &str| -> Vec<String> {
+        let c: Vec<char> = r.chars().collect();
+        let mut v = Vec::new();
+        for i in 0..c.len() {
+            if let Some(d) = c[i].to_digit(10) {
+                let mut t = c.clone();
+                if d > 1 {
+                    t[i] = char::from_digit(d - 1, 10).unwrap();
+                } else {
+                    t.remove(i);
+                }
+                v.push(t.into_iter().collect());
+            } else {
+                let mut t = c.clone();
+                t.remove(i);
+                v.push(t.into_iter().collect());
+            }
+        }
+        v
+    };
+    let grow = |r: &str| -> Vec<String> {
+        let c: Vec<char> = r.chars().collect();
+        let mut v = Vec::new();
+        for i in 0..=c.len() {
+            for ins in ['P', 'k', 'N'] {
+                let mut t = c.clone();
+                t.insert(i, ins);
+                v.push(t.into_iter().collect());
+            }
+        }
+        for i in 0..c.len() {
+            if let Some(d) = c[i].to_digit(10) {
+                if d < 8 {
+                    let mut t = c.clone();
+                    t[i] = char::from_digit(d + 1, 10).unwrap();
+                    v.push(t.into_iter().collect());
+                }
+            }
+        }
+        v
+    };
+    for i in 0..ranks.len() {
+        for j in 0..ranks.len() {
+            if i == j {
+                continue;
+            }
+            for a in shrink(ranks[i]) {
+                for b in grow(ranks[j]) {
+                    let mut r: Vec<String> = ranks.iter().map(|x| x.to_string()).collect();
+                    r[i] = a.clone();
+                    r[j] = b;
+                    let mut f: Vec<String> = fields.iter().map(|x| x.to_string()).collect();
+                    f[0] = r.join("/");
+                    out.push(f.join(" "));
+                }
+            }
+        }
+    }
+    {
+        let pc: Vec<char> = fields[0].chars().collect();
+        for i in 0..pc.len() {
+            if pc[i] == '/' {
+                for (a, b) in [(i - 1, i), (i, i + 1)] {
+                    if b < pc.len() {
+                        let mut t = pc.clone();
+                        t.swap(a, b);
+                        let mut f: Vec<String> = fields.iter().map(|x| x.to_string()).collect();
+                        f[0] = t.into_iter().collect();
+                        out.push(f.join(" "));
+                    }
+                }
+            }
+        }
+    }
     // clock magnitudes
     if fields.len() == 6 {
         for clk in ["4294967295", "4294967296", "100000000000000000000", "00", "007", "-1", "+1", "1.5", "", "٣"] {
@@ -253,7 +329,7 @@ pub fn run_c12(tier: Tier) -> i32 {
     let counters: [AtomicU64; 4] = Default::default();
     par_map(&strings, |s| judge_fen_string(&rep, s, &counters));
     fams.push(json!({
-        "family": "single-fault mutants of 12 base FENs + all strings of length <= 3 over a 42-character alphabet",
+        "family": "single-fault mutants of 12 base FENs, sum-preserving double faults across two ranks, slash swaps, + all strings of length <= 3 over a 42-character alphabet",
         "mutants_generated": n_mutants,
         "distinct_strings": strings.len(),
         "classified_invalid_must_reject": counters[0].load(Ordering::Relaxed),
